@@ -1026,7 +1026,8 @@ func register(id, which, title string) {
 			us = append(us, engine.Unit{Name: "any-universe", Run: anyUnit(which)},
 				engine.Unit{Name: "copies-mutations", Run: copiesAndMutations(which)},
 				engine.Unit{Name: "history", Run: history(which)},
-				engine.Unit{Name: "nested-nil", Run: nilFirst(which)})
+				engine.Unit{Name: "nested-nil", Run: nilFirst(which)},
+				engine.Unit{Name: "maps-held-through-typed-interfaces", Run: heldMaps(which)})
 			return us
 		},
 	})
